@@ -415,6 +415,7 @@ func famC18(r *Run) {
 				"length(l[*]._x)", "l[*].[name, _x]", "deep.name", "deep.id", "deep._x", "deep.deep.name", "*", "l[*].*", "keys(@)", "values(@)",
 				"to_string(@)", "not_null(_x, name)", "type(_x)", "\"日本\"", "\"_y\"", "l[*].\"日本\"",
 				"\"épices\"", "\"épices\"[0]", "\"øre\"", "\"ägare\".name", "\"ñu\"", "[*].\"épices\"[]", "[?\"ägare\"].\"ägare\".id", "\"épices\" || \"ñu\"", "length(\"épices\")",
+				"\"\"", "l[*].\"\"", "l[?\"\"]", "[name, \"\"]", "\"\" || name", "deep.\"\"", "lp[0].\"\"", "lp[*].\"\"", "{a: \"\"}", "inner.\"\"", "@.\"\"",
 			} {
 				r.mark("G-go-fields", text, generic)
 				og := observeSearch(text, generic)
@@ -458,6 +459,7 @@ func famC18(r *Run) {
 		}
 	}
 	famSameNameTypes(r)
+	famGoNumbers(r)
 	for n := 0; n <= 4; n++ {
 		arr := make([]interface{}, n)
 		for i := range arr {
